@@ -87,6 +87,14 @@ inline void set_bufs(int fd, int snd, int rcv) {
     if (rcv > 0) ::setsockopt(fd, SOL_SOCKET, SO_RCVBUF, &rcv, sizeof rcv);
 }
 
+//! small segments and no Nagle delay: with the 64 KiB loopback MSS, small socket buffers would make every window update
+//! wait for the persist timer (wall-clock stalls that have nothing to do with the code under test)
+inline void tcp_tune(int fd, bool mss) {
+    int one = 1, seg = 1200;
+    if (mss) ::setsockopt(fd, IPPROTO_TCP, TCP_MAXSEG, &seg, sizeof seg);
+    ::setsockopt(fd, IPPROTO_TCP, TCP_NODELAY, &one, sizeof one);
+}
+
 //! the far side of a link, driven by the script: raw non-blocking descriptors
 struct Raw {
     int rfd = -1, wfd = -1;     //! the same descriptor for sockets
@@ -177,6 +185,7 @@ inline int tcp_listen(uint32_t ip, uint16_t &port, int bufs) {
     if (s < 0) return -1;
     int one = 1; ::setsockopt(s, SOL_SOCKET, SO_REUSEADDR, &one, sizeof one);
     set_bufs(s, bufs, bufs);
+    tcp_tune(s, true);
     struct sockaddr_in sa; memset(&sa, 0, sizeof sa);
     sa.sin_family = AF_INET; sa.sin_addr.s_addr = ip; sa.sin_port = 0;
     socklen_t sl = sizeof sa;
@@ -195,6 +204,7 @@ inline int tcp_connect(uint32_t ip, uint16_t port, int bufs) {
     int s = ::socket(AF_INET, SOCK_STREAM | SOCK_CLOEXEC, 0);
     if (s < 0) return -1;
     set_bufs(s, bufs, bufs);
+    tcp_tune(s, true);
     struct sockaddr_in sa; memset(&sa, 0, sizeof sa);
     sa.sin_family = AF_INET; sa.sin_addr.s_addr = ip; sa.sin_port = htons(port);
     struct timeval tv = {5, 0};
